@@ -234,6 +234,17 @@ def scenarios():
                     [["loop", [["connect", 1], ["connect", 2], ["send", 1, "k"]]], ["loop", []]] + serve(1)
                     + [["loop", [["send", 2, "k"]]], ["loop", []], ["wait0", [["start", 2], ["handle", 2]]],
                        ["lock:murder_keepalived", []], ["lock:murder_keepalived", [["finish", 2]]]]))
+        # the keep-alive budget (worker_connections - threads parked connections): clients that make one request each
+        # and stay; whoever is over the budget is answered with a close, so a later client is still served
+        if k > 0:
+            seq = []
+            for c in (1, 2):
+                seq += [["loop", [["connect", c], ["send", c, "k"]]], ["loop", []]] + serve(c)
+            seq += [["loop", [["connect", 3], ["send", 3, "k"]]], ["loop", []]] + serve(3) + [["loop", []]] * 4
+            out.append(("keepalive-budget", p, seq))
+            # ... with a keep-alive time much longer than the patience of the monitor (a parked connection over the
+            # budget then stalls the newcomer for the whole keep-alive time, not for a tick or two)
+            out.append(("keepalive-budget-long", params(t, w, 9), seq + [["loop", []]] * 6))
         if k > 0 and w > t:
             pf = dict(p, fine=True)
             first = [["loop", [["connect", 1], ["send", 1, "k"]]], ["loop", []], ["sweep", [["start", 1]]],
@@ -303,7 +314,15 @@ def scenario_class(r, verdict, step):
         else:
             window = tops[-(r["cfg"]["K"] + 1):-1]
         if window and all(full for full, _ in window):
-            return "gate-full-pool-busy" if any(b for _, b in window) else "gate-full-pool-empty"
+            # how many of the open connections are parked keep-alive ones?  The worker's budget is wc - threads, so that
+            # `threads` slots stay available to connections that may still send a request
+            kept = 0
+            for c in range(1, r["cfg"]["nconn"] + 1):
+                mine = [e for e in upto if e["c"] == c and e["e"] in ("jobend", "reg", "submit", "close", "cancel")]
+                if len(mine) >= 2 and mine[-1]["e"] == "reg" and mine[-2]["e"] == "jobend" and mine[-2]["x"] == "keep":
+                    kept += 1
+            over = ",keepalive-over-budget" if kept > max(0, wc - r["cfg"]["threads"]) else ""
+            return ("gate-full-pool-busy" if any(b for _, b in window) else "gate-full-pool-empty") + over
     if verdict == "ServedIfThreadFree":
         # was a readable event of the waiting connection consumed without a dispatch?
         c = upto[-1]["c"] if upto[-1]["e"] == "close" else None
@@ -399,7 +418,7 @@ def judge(ctx, runs, name="GThreadTrace_C13"):
         cls = scenario_class(r, v, step)
         sig = "C13/%s/%s" % (v, cls)
         bad[sig] += 1
-        if cls.startswith("gate-full"):
+        if cls.startswith("gate-full") and "over-budget" not in cls:
             # one root cause (the capacity gate stops all polling), three bounded-response symptoms
             # (request not served / departure not noticed / count stuck) x pool empty or busy:
             # one signature; the observed variants are counted in the evidence
